@@ -69,7 +69,11 @@ def run(tier, seed):
                 ck.case(key=data, sample={'plugins': allow, 'creator': chr(p['ph']['creator']),
                                           'sections': [(s['kind'], hex(s['hdr']['comp']), s['hdr']['sub'], len(s['payload'])) for s in p['sections']]})
                 ck.count('plugins=%s outcome=%s' % (allow, real[0]))
-                compare(ck, p, data, real, model, spec, label='ud', allow_plugins=allow)
+                def _mod(sec):
+                    cr = chr(sec.get('creator', p['ph']['creator'])).lower() if sec['kind'] == 'ed' else chr(p['ph']['creator']).lower()
+                    return cr + '%04x' % sec['hdr']['comp']
+                compare(ck, p, data, real, model, spec, label='ud', allow_plugins=allow,
+                        fixture_free=(not allow) or all(_mod(s) not in FIX for s in p['sections'] if s['kind'] in ('ud', 'ed')))
                 if real[0] != 'doc':
                     continue
                 # direct oracle: fallbacks carry a lossless dump; built-in formats show their content
